@@ -22,7 +22,8 @@ RULE = ("case = helper x array of 1..50 elements (float / int / list; non-unifor
         " Round-4 classes: counts / interval sizes as NumPy integer scalars of any width, infinite values as data of the block average, arrays of 1001..3000 elements, helper call forms."
         " Round-5 classes: NaN blocks in the averaged data, a negative zero / an infinite element in oversample_linspace, NumPy integer indices into the interval view, int32 columns for the integral rules."
         " Round-6 classes: IntervalArray.oversample(num, method) with user methods whose second parameter has another name, factors as narrow NumPy integers with n * num up to 256."
-        " Round-8 classes: the wrapped array is a strided view (every other element, a table column, reversed): writes must reach it and reads follow it until an extension replaces the array.")
+        " Round-8 classes: the wrapped array is a strided view (every other element, a table column, reversed): writes must reach it and reads follow it until an extension replaces the array."
+        " Round-9 classes: huge sizes also between 2**15 and 2**16; see the interpreter dimension (python -OO).")
 HELPERS = ["oversample_linspace", "oversample_piecewise_constant", "extend_linspace", "extend_constant",
            "append_one_sample", "integrals", "sum_over_indices", "interval_getset", "interval_2d", "interval_closed",
            "interval_methods", "interval_object_history", "average", "round_trip"]
